@@ -27,7 +27,7 @@ META = {
                          "length field": "4 bits (every value)"},
                "thorough": {"codecs": "all 10 (+ UTF-16/UTF-32 declared LE)", "offsets": "0..7", "packet": "16 / 14 bytes", "length field": "4 bits"}},
     "stubs": ["bytes.decode uninterpreted", "bytes.index = first match, forks per position"],
-    "outside_claim": ["codec correctness; BOM handling", "zero-valued FIXED and LOOKED-UP sizes (constructor / lookup loop treat 0 as 'not specified')",
+    "outside_claim": ["codec correctness; BOM handling", "a zero-valued FIXED size (the constructor treats 0 as 'not specified': such a document is rejected at load); zero-valued looked-up and referenced sizes are in scope",
                       "buffers longer than the packet bound"],
     "assumptions": [],
 }
